@@ -5,6 +5,7 @@ import (
 	"fmt"
 	"os"
 	"os/exec"
+	"path/filepath"
 	"sort"
 	"strings"
 
@@ -13,6 +14,7 @@ import (
 
 	"verif/engine/chk"
 	"verif/engine/pipe"
+	"verif/engine/rig"
 	"verif/engine/vrt"
 )
 
@@ -59,6 +61,13 @@ func c15Sets() []c15Set {
 		{"[::1]:9", map[string]string{}},
 		{"h:1", map[string]string{"z": "1"}}, // duplicate of the first
 	}
+	// members whose DISCOVERED labels differ but whose final labels and URL are equal: a meta label that
+	// no rule uses, and an address with and without the default port
+	ts5 := []c15T{
+		{"g", map[string]string{"z": "2", "__meta_unused": "one"}},
+		{"g:80", map[string]string{"z": "2", "__meta_unused": "two"}},
+		{"k:5", map[string]string{}},
+	}
 	ts3 := []c15T{
 		{"a:1", map[string]string{"k": "v"}},
 		{"a:1", map[string]string{"k": "w"}},
@@ -74,6 +83,9 @@ func c15Sets() []c15Set {
 	for _, jn := range chk.SortedKeys(jobs) {
 		out = append(out, c15Set{Name: jn + "/ts4", Job: jobs[jn], Common: common, Ts: ts4})
 		out = append(out, c15Set{Name: jn + "/ts3", Job: jobs[jn], Common: common, Ts: ts3})
+		if jn == "plain" || jn == "params" {
+			out = append(out, c15Set{Name: jn + "/ts5-equal-after-translation", Job: jobs[jn], Common: common, Ts: ts5})
+		}
 	}
 	return out
 }
@@ -146,9 +158,23 @@ func c15Hashes(jobText string, gs []*targetgroup.Group, rounds int) (map[string]
 	for i := 0; i < rounds; i++ {
 		rs = append(rs, map[string][]*targetgroup.Group{"j1": gs})
 	}
-	active, _ := pipe.Discovered(info, rs)
+	active, d := pipe.Discovered(info, rs)
 	out := map[string]uint64{}
 	problem := ""
+	// the per-job lists (what the targets API shows) contain each hash once, too. Entries of different
+	// groups of one job are not merged by kvass' per-group check, so only same-group repeats are judged:
+	// the variants put equal members into one group unless cut apart.
+	if len(gs) == 1 {
+		seen := map[uint64]bool{}
+		for _, ts := range d.ActiveTargets() {
+			for _, t := range ts {
+				if seen[t.ShardTarget.Hash] {
+					problem = fmt.Sprintf("the active list of the job holds hash %d twice (equal labels and URL did not collapse)", t.ShardTarget.Hash)
+				}
+				seen[t.ShardTarget.Hash] = true
+			}
+		}
+	}
 	for h, t := range active {
 		if t.ShardTarget.Hash != h {
 			problem = fmt.Sprintf("entry keyed %d carries hash %d", h, t.ShardTarget.Hash)
@@ -359,6 +385,48 @@ func init() {
 				}
 			}
 		}
+		// persistence: the hashes a sidecar holds after a restart are the ones the coordinator computed
+		if c.Part == 0 {
+			idx++
+			set := c15Sets()[0]
+			info, _ := pipe.LoadInfo(set.Job)
+			act, _ := pipe.Discovered(info, []map[string][]*targetgroup.Group{{"j1": c15Variant(set, []int{0, 1, 2, 3}, 0, 0)}})
+			dir := filepath.Join(os.Getenv("VERIF_SCRATCH"), "c15-restart")
+			os.RemoveAll(dir)
+			sc, err := rig.NewSidecar(dir, &rig.Targets{}, false)
+			if err != nil {
+				chk.Fatalf("%v", err)
+			}
+			if err := sc.PushConfig(set.Job); err != nil {
+				chk.Fatalf("%v", err)
+			}
+			if err := sc.Update(pipe.Ship(act)); err != nil {
+				chk.Fatalf("%v", err)
+			}
+			if err := sc.Restart(true); err != nil {
+				chk.Fatalf("%v", err)
+			}
+			st, _ := sc.Status()
+			r.States++
+			r.Transitions += 2
+			var missing []uint64
+			for h := range act {
+				if _, ok := st[h]; !ok {
+					missing = append(missing, h)
+				}
+			}
+			var stored []uint64
+			for _, ts := range sc.TM.TargetsInfo().Targets {
+				for _, t := range ts {
+					stored = append(stored, t.Hash)
+				}
+			}
+			if len(missing) > 0 || len(st) != len(act) {
+				r.Violate("C15:hash-changed-by-restart", "stable-across-restarts", fmt.Sprintf("after a sidecar restart the status is keyed by %v, the coordinator's hashes %v are missing (stored: %v)", keysOf(st), missing, stored), idx,
+					&c15Replay{Property: "C15", Clause: "stable-across-restarts", Variant: "ship to a sidecar, restart, read status"})
+			}
+			os.RemoveAll(dir)
+		}
 		// separate processes
 		if c.Part == 0 {
 			self, _ := os.Executable()
@@ -376,4 +444,13 @@ func init() {
 			r.Counters["child_processes"] = 3
 		}
 	})
+}
+
+func keysOf[V any](m map[uint64]V) []uint64 {
+	var out []uint64
+	for k := range m {
+		out = append(out, k)
+	}
+	sort.Slice(out, func(i, j int) bool { return out[i] < out[j] })
+	return out
 }
